@@ -593,7 +593,94 @@ def check_C04(rep):
     rep.cov["rule"] = "term sets of 1-6 terms mixing chars, strings and patterns: forced overlaps (keyword vs identifier in both orders, '=' vs '==', prefix strings, the same string twice, more than four terms accepting one string) and random sets; strings: all strings up to a bound over the terms' alphabet, every string term, each with one byte appended and removed. Non-trivial = distinct term set on which at least two different terms win. Whitespace skipping and lexeme slices are covered by the H1 carrier with the generated lexer (C10/C16 runs) and the H3 programs."
     return rep
 
-CHECKS = {"C03": check_C03, "C04": check_C04, "C01": check_C01, "C16": check_C16, "C11": check_C11, "C05": check_C05, "C09": check_C09, "C10": check_C10, "C13": check_C13, "C18": check_C18}
+import patsyntax
+
+def check_C17(rep):
+    common_stage(rep)
+    run = h2_stage(rep)
+    if run is None: return rep
+    nontriv = set(); samples = []
+    for k in sorted(run.real, key=int):
+        c = run.cases[k]
+        if c["pattern"] is None: continue
+        rep.cov["evaluations"] += 1
+        r = run.real[k]; m = run.model.get(k)
+        pat = c["pattern"]
+        if m is None or (r["analyze"] or "").split()[:1] != (m["analyze"] or "").split()[:1]:
+            rep.tie_broken(f"correspondence H2/pattern-verdict: pattern {bytes(pat)!r}: the real pattern parser's verdict differs from the model's")
+        else: rep.cov["traces_validated_against_impl"] += 1
+        accepted = (r["analyze"] or "").startswith("ok")
+        if r["analyze"] and "OVERREAD" in r["analyze"]:
+            rep.fail(kind="scanning-the-pattern-read-past-its-terminator", pattern=pat, text=bytes(pat).decode("latin1"))
+        bad = patsyntax.malformed(pat); good = patsyntax.wellformed(pat)
+        if accepted and bad:
+            rep.fail(kind="malformed-pattern-accepted", pattern=pat, text=bytes(pat).decode("latin1"), malformed_class=bad)
+        if not accepted and good:
+            rep.fail(kind="documented-pattern-rejected", pattern=pat, text=bytes(pat).decode("latin1"))
+        # a matcher is produced only for accepted patterns, and both construction paths agree
+        if accepted and r["build"] and r["build"].startswith("fail"):
+            rep.fail(kind="analyser-accepts-but-builder-rejects", pattern=pat, text=bytes(pat).decode("latin1"))
+        if not accepted and bad and len(pat) >= 2 and run.meta[k]["family"] in ("mutated", "exhaustive-special", "malformed"):
+            nontriv.add(bytes(pat))
+            if len(samples) < 4: samples.append({"pattern": bytes(pat).decode("latin1"), "class": bad, "real_verdict": r["analyze"]})
+    # undeclared symbols / empty nonterminal names are compile-time or construction-time failures: covered by the H3 programs
+    rep.cov["distinct_nontrivial"] = len(nontriv)
+    rep.cov["rule"] = "pattern strings: hand-written malformed ones for every class of the statement, one-edit neighbours of random well-formed patterns (drop / duplicate / insert a special, a control byte or a byte >= 0x80), and ALL strings up to length 2 (quick) / 3 (thorough) over a 20-symbol alphabet of specials, letters, digit, backslash, NUL and 0x80; the real regex_parser_object is driven at run time through a buffer that records every read beyond the terminator; verdicts are judged by an independent recogniser of the documented syntax and of the statement's malformed classes; non-trivial = distinct rejected pattern of length >= 2 in a malformed class"
+    rep.cov["samples"] = samples
+    return rep
+
+def check_C12(rep):
+    common_stage(rep)
+    run2 = h2_stage(rep)
+    nontriv = set(); samples = []
+    if run2 is not None:
+        for k in sorted(run2.real, key=int):
+            r = run2.real[k]; c = run2.cases[k]; m = run2.model.get(k)
+            if c["pattern"] is not None and r["analyze"] and r["analyze"].startswith("ok") and r["build"] and r["build"].startswith("ok"):
+                rep.cov["evaluations"] += 1
+                predicted = int(r["analyze"].split()[1]); built = int(r["build"].split()[2])
+                if m is None or r["analyze"] != m["analyze"] or r["build"] != m["build"]:
+                    rep.tie_broken(f"correspondence H2/sizes: pattern {bytes(c['pattern'])!r}: analyser/builder sizes differ from the model's")
+                else: rep.cov["traces_validated_against_impl"] += 1
+                if predicted != built:
+                    rep.fail(kind="dfa-size-prediction-differs-from-states-built", pattern=bytes(c["pattern"]).decode("latin1"), predicted=predicted, built=built)
+                if "{" in bytes(c["pattern"]).decode("latin1"):
+                    nontriv.add(bytes(c["pattern"]))
+                    if len(samples) < 2: samples.append({"pattern": bytes(c["pattern"]).decode("latin1"), "predicted": predicted, "built": built})
+            if r["throw"] and "capacity" in r["throw"]:
+                rep.fail(kind="automaton-capacity-exceeded-although-sized-by-the-analyser", case=k, meta=run2.meta[k])
+    run = h1_stage(rep)
+    if run is not None:
+        # custom limits (carrier C: state cap 24, item cap 60): either construction fails loudly or the table equals
+        # the one built with the default (sufficient) limits for the same grammar (carrier A)
+        by_rules = {}
+        for cid, mt in run.meta.items(): by_rules.setdefault(json.dumps(mt["rules"]) + json.dumps(mt["prec"]) + json.dumps(mt["rule_prec"]), {})[mt["carrier"]] = cid
+        for key, d in by_rules.items():
+            if "C" not in d or d["C"] not in run.real: continue
+            c = d["C"]; rc = run.real[c]; mc = run.model.get(c)
+            rep.cov["evaluations"] += 1
+            if mc is None or rc["gen"] != mc["gen"] or rc["rows"] != mc["rows"]:
+                rep.tie_broken(f"correspondence H1/limits: case {c}: construction outcome under custom limits differs from the model's")
+            if "A" in d and d["A"] in run.real:
+                ra = run.real[d["A"]]
+                if rc["gen"] == "ok" and ra["gen"] == "ok" and (rc["states"] != ra["states"] or rc["rows"] != ra["rows"]):
+                    rep.fail(kind="parser-built-under-small-limits-differs-from-the-one-built-with-sufficient-limits", grammar=run.meta[c], case_small=c, case_default=d["A"])
+                if rc["gen"].startswith("throw"):
+                    nontriv.add(("limits", c))
+                    if len(samples) < 4: samples.append({"grammar": run.meta[c]["rules"], "limits": "state_count_cap=24,max_sit_count_per_state_cap=60", "outcome": rc["gen"]})
+        # default caps: construction with default limits must never overflow an item vector
+        for cid, r in run.real.items():
+            if run.meta[cid]["carrier"] != "C" and r["gen"] and "cvector capacity" in r["gen"]:
+                rep.fail(kind="default-item-capacity-too-small", grammar=run.meta[cid], outcome=r["gen"])
+        # stack capacity with the std::vector stacks of the H1 buffers never throws
+        for cid, j, inp, ri, mi in each_input(run):
+            if ri["res"].startswith("THROW"): rep.fail(kind="parse-threw", case=cid, input=inp, grammar=run.meta[cid], observed=ri["res"][:120])
+    rep.cov["distinct_nontrivial"] = len(nontriv)
+    rep.cov["rule"] = "every accepted pattern of the H2 families: dfa_size_analyzer prediction vs states actually created by the real dfa_builder (nested and large repetition counts included); carrier C (custom limits 24 states / 60 items per state) vs carrier A (default limits) on the same grammars: loud failure or identical table; default limits never overflow. Non-trivial = distinct pattern with a repetition count, or grammar whose construction hits a custom limit. The cstring_buffer stack capacity N+EmptyRulesCount+1 is known finding D8 (H3 replay)."
+    rep.cov["samples"] = samples
+    return rep
+
+CHECKS = {"C17": check_C17, "C12": check_C12, "C03": check_C03, "C04": check_C04, "C01": check_C01, "C16": check_C16, "C11": check_C11, "C05": check_C05, "C09": check_C09, "C10": check_C10, "C13": check_C13, "C18": check_C18}
 
 def run_check(pid, tier, seed):
     rep = Report(pid, tier, seed)
